@@ -1,6 +1,6 @@
 """C04 — check configuration and MANIFEST entry."""
 CFG = {
-    "count": {"quick": 12000, "thorough": 480000},
+    "count": {"quick": 10000, "thorough": 400000},
     "lean_files": ["GeoModel/BoolGlue.lean", "GeoModel/BoolSpec.lean", "GeoModel/Ops/C04.lean", "GeoModel/Winding.lean",
                    "GeoModel/RelateSpec.lean", "GeoModel/Valid.lean", "GeoModel/Area.lean",
                    "GeoProofs/Lemmas/C04Wind.lean", "GeoProofs/Lemmas/C04Locate.lean"],
